@@ -109,3 +109,31 @@ Theorem C09_inline_assembly_deferred : forall w r before after name args fi fi' 
   assemble_ast w r (before ++ [AMacroApply name args fi] ++ after) =
   assemble_ast w r (before ++ [ACompound (stmts_of pbs fi'' ++ md_body md) fi'] ++ after).
 Proof. exact macro_inline_assembly. Qed.
+
+(** Code-block arguments, end to end.  An application with evaluated and code-block arguments
+    against the block in which every splice [{{q}}] of a code parameter — at the body's own level
+    or inside nested [{ }] blocks — is replaced by the argument's statements ([arel]): both
+    assemblies fail alike or give the same blocks and labels.  The other statements of the body and
+    the argument blocks are [plain] (no nested application or splice that could reach the extra
+    code binding dynamically: the one-level substitution), and no expression of the generated
+    program uses a code-parameter name as an identifier ([nodes_kfree]; needed: MacroCodeExamples
+    name_used_application / name_used_twin). *)
+From A816 Require Import Proofs.NonInterference Proofs.MacroCode.
+Theorem C09_code_argument_assembly : forall w r before after name args fi fi' fi'' md cbs body2,
+  cg_ok r ->
+  (forall s' ns', code_gen_fuel w cg_depth {| cg_r := r; cg_macros := [] |} before = Ok (s', ns') ->
+     dict_get (cg_macros s') name = Some md /\
+     eval_macro_args w (cg_r s') (md_params md) args = Ok (cbound cbs)) ->
+  clits_closed w cbs ->
+  Forall2 (arel (code_names cbs) (code_of cbs)) (md_body md) body2 ->
+  (forall sF ns, code_gen_fuel w cg_depth {| cg_r := r; cg_macros := [] |}
+                   (before ++ [AMacroApply name args fi] ++ after) = Ok (sF, ns) ->
+     nodes_kfree (code_names cbs) ns = true) ->
+  match assemble_ast w r (before ++ [AMacroApply name args fi] ++ after),
+        assemble_ast w r (before ++ [ACompound (cstmts cbs fi'' ++ body2) fi'] ++ after) with
+  | Ok o1, Ok o2 => o_blocks o1 = o_blocks o2 /\ o_labels o1 = o_labels o2
+  | Err j, Err k => j = k
+  | OutOfFuel, OutOfFuel => True
+  | _, _ => False
+  end.
+Proof. exact macro_code_assembly. Qed.
